@@ -584,6 +584,13 @@ fn mutate_fields(o: &mut Out, r: &mut Rng, instr: &str, wit: &str, scalar_fields
     let a: Vec<&str> = wit.split_whitespace().collect();
     let Some(Ok(bytes)) = construct(instr, &a) else { return };
     let ell = ell_bytes();
+    // a point field with bit 255 set (no canonical encoding has it), and with its low bit flipped
+    for &f in point_fields {
+        let mut m = bytes.clone(); m[f + 31] ^= 0x80;
+        o.op_exp(&format!("{}.point-top-bit", instr), "R", &format!("verify {} {}", instr, hex(&m)));
+        let mut m = bytes.clone(); m[f] ^= 0x01;
+        o.op_exp(&format!("{}.point-low-bit", instr), "R", &format!("verify {} {}", instr, hex(&m)));
+    }
     for &f in scalar_fields {
         // z + k*ell while it fits in 256 bits: never accepted
         let mut cur: [u8; 32] = bytes[f..f + 32].try_into().unwrap();
